@@ -399,3 +399,67 @@ def k2_full_path(res, tier):
         if r.kind in ('panic', 'oob', 'unreachable', 'ub', 'diverge', 'depth'):
             res.fail(f'C17.K2:full_import_path:{r.kind}', f'full_import_path: path ends in {r.kind}: {str(r.info)[:200]}', {'path': str(r.info)})
     summarize_paths(res, e, results, lambda r: r.info if isinstance(r.info, dict) else None, key_prefix='C17.K2:', unwind_ok=False)
+
+
+# ---------------------------------------------------------------------------------------------- loading a module file and the packages
+F45_REPLAY = dict(kind='lay', source='import self.std as user;\nprint(user.mine);\nimport std.math;\nprint(math.abs(-3));\n', files={'std.lay': 'export let mine = 1;\n'},
+                  expect_stdout='1\n3\n')
+
+
+@obligation('C17.K2.load_keeps_packages', 'C17', programs=('vm',))
+def k2_load_keeps_packages(res, tier):
+    """Vm::load_missing_module (a module file is read, registered under its parent module and compiled): the table of packages is the
+    same afterwards - a module loaded from a file is reachable through its parent only and can neither add nor replace a package
+    (`std`, `self`), whatever its name"""
+    P = get_program('vm')
+    e = Engine(P, loop_bound=5, timeout_s=120, max_depth=60)
+    W = VmWorld(e, P)
+    W.havoc_objects(e)
+    install_gc_refs(e, exclude=('Fiber',))
+    f = P.lookup('vm::Vm::load_missing_module')
+    res.bounds = {'import path': 'any', 'file system': 'read succeeds or fails', 'compile': 'succeeds or fails'}
+    res.assumptions = ['compile, the file system and the diagnostics printer are summarised by arbitrary results']
+    e.allow_havoc(r'^(vm::)?Vm::compile$', r'^(vm::)?(source_loader::)?find_missing_module$', r'^(laythe_env::)', r'^(std::path::)?Path(Buf)?::\w+$', r'^<(std::path::)?PathBuf as .*>::\w+$',
+                  r'^(std::ffi::)?(os_str::)?OsString::\w+$', r'^<.* as (std::clone::|core::clone::)?Clone>::clone$', r'^(source::)?(files::)?VmFiles::\w+$', r'^(source::)?Source::\w+$',
+                  r'^(codespan_reporting::)?term::emit$', r'^(codespan_reporting::)?(term::)?(config::)?Config::\w+$', r'^<.*Config as .*Default>::default$', r'^(std|alloc|core)::fmt::',
+                  r'^format$', r'Arguments::', r'^(cache::)?CacheIdEmitter::\w+$', r'^(vm::)?Vm::(push_root|pop_roots)$', r'^(laythe_core::)?(module::)?Package::\w+$',
+                  r'^(laythe_core::)?(module::)?Module::new$', r'^(laythe_core::)?(object::)?(class::)?Class::with_inheritance$', r'^(laythe_core::)?(module::)?(import::)?Import::\w+$',
+                  r'^<\[.*\] as .*>::\w+$', r'^(laythe_env::)?(\w+::)*(Fs|Io|Stdio)::\w+$',
+                  r'^<(std::string::|alloc::string::)?String as .*>::\w+$', r'^(std::string::|alloc::string::)?String::\w+$')
+
+    e.model(r'^(laythe_core::)?(hooks::)?(GcHooks|Hooks)::(push_root|pop_roots)$', lambda e_, a, c: UNIT)
+    # find_missing_module hands back a non-empty remaining path when a module is missing (C17.K1.find_missing_module)
+    e.model(r'^core::slice::<impl \[.*\]>::first$', lambda e_, a, c: e_.mk_option(e_, norm_ty(c.dest_ty) if c.dest_ty else 'Option', Ref(Cell(AbsObj(z3.BitVec('module_name', 64), 'LyStr')))))
+    e.allow_havoc(r'^(laythe_core::)?(utils::)?IdEmitter::emit$', r'^(codespan_reporting::)?(term::)?emit$')
+    # the parent has no module of that name: that is why it is being loaded (find_missing_module, C17.K1)
+    RESd = P.enum_def('Result')
+    e.model(r'^(laythe_core::)?(module::)?Module::insert_module$', lambda e_, a, c: EnumV(norm_ty(c.dest_ty) if c.dest_ty else 'Result', 0, {'Ok': {0: Cell(UNIT)}}, None, RESd))
+
+    def m_pk_insert(e_, a, c):
+        e_.path_state.setdefault('package_inserts', []).append(a[1])
+        return e_.mk_option(e_, norm_ty(c.dest_ty) if c.dest_ty else 'Option')
+    e.model(r'^(laythe_core::)?(object::)?(map::)?Map::insert$', m_pk_insert)
+
+    def path(e):
+        st = W.fresh_state(e)
+        pkg = e.materialise('laythe_core::Ref<laythe_core::module::Package>', NameBacking('existing_package'))
+        imp = e.materialise('laythe_core::Ref<laythe_core::module::Import>', NameBacking('import'))
+        try:
+            e.call(f, [Ref(st.vm_cell), pkg, imp])
+        except PathEnd as pe:
+            if pe.kind not in ('vm_error', 'vm_exit', 'internal_error'):
+                raise
+        ins = e.path_state.get('package_inserts', [])
+        e.check(not ins, 'loading a module file does not add or replace a package', {'inserts': len(ins)})
+        return {'package_inserts': len(ins)}
+    results = e.explore(path)
+    for r in results:
+        for lab, ok, info in list(r.checks):
+            if not ok and 'does not add or replace a package' in lab:
+                res.fail('C17.K2:a loaded module file is registered as a package under its bare name',
+                         'Vm::module inserts every module it creates into the package table: a user file std.lay imported as self.std replaces the std package and every later '
+                         'import of std.* fails (and `import a` works after `import self.a`)', info, replay=F45_REPLAY)
+                r.checks.remove((lab, ok, info))
+        if r.kind in ('oob', 'unreachable', 'ub', 'diverge', 'depth'):
+            res.fail(f'C17.K2:load_missing_module:{r.kind}', f'load_missing_module: path ends in {r.kind}: {str(r.info)[:200]}', {'path': str(r.info)})
+    summarize_paths(res, e, results, lambda r: r.info if isinstance(r.info, dict) else None, key_prefix='C17.K2:load:', unwind_ok=True)
